@@ -149,6 +149,21 @@ func checkBalloons(e *executor, r *stepResult) *vfkit.Violation {
 	topo := e.h.topo
 	avail := e.blnAvailable()
 	isolated := topo.IsolatedCPUs()
+	// remember in which kind of request a live container lost its balloon
+	if e.scratch["lostBln"] == nil {
+		e.scratch["lostBln"] = map[string]string{}
+		e.scratch["hadBln"] = map[string]bool{}
+	}
+	lost, had := e.scratch["lostBln"].(map[string]string), e.scratch["hadBln"].(map[string]bool)
+	for _, c := range e.m.live() {
+		if len(v.byCtr[c.ID]) > 0 {
+			had[c.ID] = true
+			delete(lost, c.ID)
+		} else if had[c.ID] {
+			had[c.ID] = false
+			lost[c.ID] = r.Handler
+		}
+	}
 	// balloons as advertised (zones) must agree with the white-box view
 	zoneCpus := map[string]string{}
 	zoneShared := map[string]string{}
@@ -259,6 +274,8 @@ func checkBalloons(e *executor, r *stepResult) *vfkit.Violation {
 			sig := fmt.Sprintf("container-in-%d-balloons", len(bl))
 			if len(bl) == 0 && e.rejectedReconfigs > 0 {
 				sig += ":after-rejected-reconfiguration"
+			} else if len(bl) == 0 && lost[c.ID] == "Synchronize" {
+				sig = "container-without-balloon-after-synchronize-could-not-readmit-it"
 			} else if len(bl) == 0 && e.reconfigured {
 				sig = "container-without-balloon-after-accepted-reconfiguration"
 			}
